@@ -1,9 +1,238 @@
-/- C13 - model (stub: not built yet) -/
+/-
+C13 - model of `x509TrustStore.GetCertificates` (verifier/truststore/truststore.go) with
+`file.IsValidFileName` (internal/file/file.go), `dir.X509TrustStoreDir` (dir/path.go, i.e.
+`path.Join`), `ValidateCertificates`, `isRootCACertificate` and the directory walk (`os.Lstat`,
+`os.ReadDir`, `corex509.ReadCertificateFile`).
+
+World: the store directory `<root>/truststore/x509/<type>/<name>` is of one of four kinds and
+holds a list of entries (name, kind, abstract content). The content of a regular file is
+abstracted to "does `ReadCertificateFile` succeed" + the list of certificates it yields; a
+certificate is abstracted to the four booleans the Go decisions depend on (plus an id that
+lets the harness recognise which certificates came back).
+-/
 import NotationModel.Basic
+import NotationModel.Generated.C13
 open Lean
 
 namespace NotationModel.C13
 
-def judge (_ : Json) : Except String Json := .error "C13: model not built yet"
+/-- which function the case exercises: `GetCertificates`, only `file.IsValidFileName`, or only
+`dir.X509TrustStoreDir` -/
+inductive Op | load | nameCheck | storePath
+  deriving DecidableEq, Repr, FromJson, ToJson
+
+/-- what `os.Lstat` finds at the store path -/
+inductive DirKind
+  | missing        -- nothing there
+  | dir            -- a real directory
+  | symlinkToDir   -- a symbolic link to a directory (holding the entries)
+  | file           -- a regular file
+  deriving DecidableEq, Repr, FromJson, ToJson
+
+/-- `DirEntry.Type()` of an entry of the store directory -/
+inductive EntryKind | file | dir | symlink
+  deriving DecidableEq, Repr, FromJson, ToJson
+
+/-- a certificate as far as the Go decisions look at it -/
+structure CertFlags where
+  id : Nat               -- identity (harness: index into the minted pool)
+  isCA : Bool            -- `cert.IsCA`
+  selfSig : Bool         -- the signature verifies under the certificate's own public key
+  signOk : Bool          -- own key admitted for certificate signing: the basic-constraints /
+                         -- key-usage part of `cert.CheckSignatureFrom(cert)`
+  subjEqIssuer : Bool    -- `bytes.Equal(cert.RawSubject, cert.RawIssuer)`
+  deriving DecidableEq, Repr, FromJson, ToJson
+
+structure Entry where
+  name : Text            -- file name inside the store directory
+  kind : EntryKind
+  parseOk : Bool         -- regular file: `ReadCertificateFile` returns no error
+  certs : List CertFlags -- regular file with parseOk: the certificates read, in file order
+                         -- (sub-directory / symlink / unparsable file: what the harness hides there)
+  enc : String           -- how the harness encodes the content (pem, der, ...); not seen by the model
+  deriving DecidableEq, Repr, FromJson, ToJson
+
+structure Input where
+  op : Op
+  storeType : String
+  name : Text
+  dirKind : DirKind
+  entries : List Entry   -- in creation order; `os.ReadDir` sorts by name
+  decoys : Bool          -- harness plants valid certificates outside the store; not seen by the model
+  deriving Repr, FromJson, ToJson
+
+structure Obs where
+  ok : Bool              -- no error (for `nameCheck`: the boolean result)
+  certs : List Nat       -- ids of the returned certificates, in order (also when an error came with them)
+  path : Text            -- `storePath` only: the relative path `dir.X509TrustStoreDir(type, name)` returns
+  deriving DecidableEq, Repr, FromJson, ToJson
+
+/-! ### `file.IsValidFileName` -/
+
+def inRange (lo hi c : Char) : Bool := lo.toNat ≤ c.toNat && c.toNat ≤ hi.toNat
+
+/-- the character class `[a-zA-Z0-9_.-]` -/
+def classChar (c : Char) : Bool :=
+  inRange 'a' 'z' c || inRange 'A' 'Z' c || inRange '0' '9' c || c == '_' || c == '.' || c == '-'
+
+/-- `^[a-zA-Z0-9_.-]+$` in Go (RE2) syntax: without the `m` flag `$` matches only at the very end
+of the text, so the whole text is one or more class characters. Written for the regex text
+pinned in `Props/C13.lean` (`regex_pinned`). -/
+def matchesFileNameRegex (n : Text) : Bool := !n.isEmpty && n.all classChar
+
+/-- the names rejected before the regex, as character lists -/
+def rejectedNames : List Text := Facts.c13RejectedNames.map String.toList
+
+def isValidFileName (n : Text) : Bool :=
+  if rejectedNames.contains n then false else matchesFileNameRegex n
+
+/-! ### `dir.X509TrustStoreDir`: `path.Join("truststore", "x509", type, name)`.
+`path.Join` joins the non-empty items with "/" and applies `path.Clean`; since the first item
+is a non-empty relative path the result is never rooted. -/
+
+/-- split at every '/' -/
+def splitSlash : Text → List Text
+  | [] => [[]]
+  | c :: cs =>
+    if c == '/' then [] :: splitSlash cs
+    else match splitSlash cs with
+      | [] => [[c]]
+      | h :: t => (c :: h) :: t
+
+/-- one component of `path.Clean` on a non-rooted path; `out` is the stack of kept components
+(top first). Empty and "." components vanish, ".." removes the component before it unless
+there is none (or only ".."s), in which case it is kept. -/
+def cleanStep (out : List Text) (comp : Text) : List Text :=
+  if comp == [] || comp == ['.'] then out
+  else if comp == ['.', '.'] then
+    match out with
+    | [] => [comp]
+    | top :: rest => if top == ['.', '.'] then comp :: out else rest
+  else comp :: out
+
+/-- the components of `path.Join(items...)` -/
+def joinComponents (items : List Text) : List Text :=
+  ((items.flatMap splitSlash).foldl cleanStep []).reverse
+
+def renderPath (cs : List Text) : Text := if cs.isEmpty then ['.'] else List.intercalate ['/'] cs
+
+def storePrefix : List Text := Facts.c13StoreDirPrefix.map String.toList
+
+/-- `dir.X509TrustStoreDir(type, name)` -/
+def storeDir (t : String) (n : Text) : Text :=
+  renderPath (joinComponents (storePrefix ++ [t.toList, n]))
+
+/-! ### directory order: `os.ReadDir` returns the entries sorted by file name (byte-wise;
+for UTF-8 that is code-point-wise) -/
+
+def nameLt : Text → Text → Bool
+  | [], [] => false
+  | [], _ :: _ => true
+  | _ :: _, [] => false
+  | a :: as, b :: bs =>
+    if a.toNat < b.toNat then true else if b.toNat < a.toNat then false else nameLt as bs
+
+def nameLe (a b : Text) : Bool := !nameLt b a
+
+def insertEntry (e : Entry) : List Entry → List Entry
+  | [] => [e]
+  | x :: xs => if nameLe e.name x.name then e :: x :: xs else x :: insertEntry e xs
+
+def sortEntries : List Entry → List Entry
+  | [] => []
+  | e :: es => insertEntry e (sortEntries es)
+
+/-! ### `GetCertificates` -/
+
+/-- `isValidStoreType`: membership in `truststore.Types` -/
+def knownType (t : String) : Bool := Facts.c13StoreTypes.contains t
+
+/-- `storeType == TypeTSA` -/
+def needsRoot (t : String) : Bool := Facts.c13RootCheckedTypes.contains t
+
+/-- `ValidateCertificates`: non-empty, every certificate is a CA or verifies under its own key -/
+def validateCertificates (cs : List CertFlags) : Bool :=
+  !cs.isEmpty && cs.all (fun c => c.isCA || c.selfSig)
+
+/-- `isRootCACertificate`: `cert.CheckSignatureFrom(cert)` (constraints, then signature), then
+subject = issuer -/
+def isRootCA (c : CertFlags) : Bool := (c.signOk && c.selfSig) && c.subjEqIssuer
+
+/-- the `for _, file := range files` loop; `none` = an error return (the accumulated slice is dropped) -/
+def loadEntries (t : String) : List Entry → List CertFlags → Option (List CertFlags)
+  | [], acc => some acc
+  | e :: rest, acc =>
+    if e.kind != .file then none                          -- directory or symlink
+    else if !e.parseOk then none                          -- ReadCertificateFile failed
+    else if !validateCertificates e.certs then none       -- ValidateCertificates failed
+    else if needsRoot t && !e.certs.all isRootCA then none
+    else loadEntries t rest (acc ++ e.certs)
+
+def getCertificates (i : Input) : Option (List CertFlags) :=
+  if !knownType i.storeType then none
+  else if !isValidFileName i.name then none
+  else match i.dirKind with
+    | .dir =>
+      match loadEntries i.storeType (sortEntries i.entries) [] with
+      | some cs => if cs.isEmpty then none else some cs   -- `len(certificates) < 1`
+      | none => none
+    | _ => none                                           -- Lstat error / not a directory / symlink
+
+def run (i : Input) : Obs :=
+  match i.op with
+  | .nameCheck => { ok := isValidFileName i.name, certs := [], path := [] }
+  | .storePath => { ok := true, certs := [], path := storeDir i.storeType i.name }
+  | .load =>
+    match getCertificates i with
+    | some cs => { ok := true, certs := cs.map (·.id), path := [] }
+    | none => { ok := false, certs := [], path := [] }
+
+/-! ### specification (independent of the extracted facts) -/
+
+/-- "plain file name": non-empty, letters / digits / `_` `.` `-` only, and not a dot-only
+directory reference -/
+def plainChar (c : Char) : Bool := c.isAlphanum || c == '_' || c == '.' || c == '-'
+
+def plainName (n : Text) : Bool := n != [] && n.all plainChar && n != ['.'] && n != ['.', '.']
+
+def specTypes : List String := ["ca", "signingAuthority", "tsa"]
+
+/-- CA or self-signed; in a tsa store a self-signed root -/
+def acceptable (t : String) (c : CertFlags) : Bool :=
+  (c.isCA || c.selfSig) && (t != "tsa" || (c.selfSig && c.signOk && c.subjEqIssuer))
+
+/-- a regular file holding one or more parseable, acceptable certificates -/
+def entryLoadable (t : String) (e : Entry) : Bool :=
+  e.kind == .file && e.parseOk && !e.certs.isEmpty && e.certs.all (acceptable t)
+
+def loadable (i : Input) : Bool :=
+  specTypes.contains i.storeType && plainName i.name && i.dirKind == .dir &&
+    i.entries.all (entryLoadable i.storeType) && !i.entries.isEmpty
+
+/-- the certificates of the store's files, concatenated in directory order -/
+def expectedIds (i : Input) : List Nat := ((sortEntries i.entries).flatMap (·.certs)).map (·.id)
+
+/-- every certificate id that occurs in a file of the store -/
+def storeIds (i : Input) : List Nat := (i.entries.flatMap (·.certs)).map (·.id)
+
+/-- the property over observables -/
+def clauses (i : Input) (o : Obs) : Clauses :=
+  match i.op with
+  | .load =>
+    [ ("succeeds_iff_known_type_plain_name_real_dir_all_entries_valid_files_nonempty", o.ok == loadable i),
+      ("returns_exactly_the_files_certificates_in_directory_order", !o.ok || o.certs == expectedIds i),
+      ("nothing_from_anywhere_else", o.certs.all (fun c => (storeIds i).contains c)),
+      ("fails_as_a_whole_no_partial_set", o.ok || o.certs.isEmpty) ]
+  | .nameCheck =>
+    [ ("file_name_check_accepts_exactly_plain_names", o.ok == plainName i.name),
+      ("name_check_returns_no_certificates", o.certs.isEmpty) ]
+  | .storePath =>
+    [ ("known_type_and_plain_name_address_exactly_truststore_x509_type_name",
+        !(specTypes.contains i.storeType && plainName i.name) ||
+          o.path == "truststore/x509/".toList ++ i.storeType.toList ++ ['/'] ++ i.name) ]
+
+def Holds (i : Input) (o : Obs) : Bool := (clauses i o).holds
+
+def judge := judgeWith run clauses
 
 end NotationModel.C13
